@@ -320,3 +320,24 @@ pub fn hex(b: &[u8]) -> String {
 pub fn unhex(s: &str) -> Vec<u8> {
   (0..s.len() / 2).map(|i| u8::from_str_radix(&s[2 * i..2 * i + 2], 16).unwrap_or(0)).collect()
 }
+
+/// (idle + iowait, total) jiffies of the whole machine, from /proc/stat. Used by the checks with wall-clock bounds
+/// (C07, C12): a bound that expires while the machine has next to no idle CPU is no verdict.
+pub fn proc_stat() -> Option<(u64, u64)> {
+  let s = std::fs::read_to_string("/proc/stat").ok()?;
+  let l = s.lines().next()?;
+  let v: Vec<u64> = l.split_whitespace().skip(1).filter_map(|x| x.parse().ok()).collect();
+  if v.len() < 5 {
+    return None;
+  }
+  Some((v[3] + v[4], v.iter().take(8).sum()))
+}
+/// idle share of the machine since `since` (a value of `proc_stat`)
+pub fn idle_share_since(since: Option<(u64, u64)>) -> Option<f64> {
+  match (since, proc_stat()) {
+    (Some((i0, t0)), Some((i1, t1))) if t1 > t0 => Some((i1 - i0) as f64 / (t1 - t0) as f64),
+    _ => None,
+  }
+}
+/// below this idle share a timed-out wait is inconclusive
+pub const SATURATED_IDLE: f64 = 0.10;
